@@ -19,8 +19,14 @@ Lemma installed_tables_pinned :
   installed_pkg_rows = expected_installed_rows /\
   installed_file_formats = ["%c"; "F:%s"; "M:%d:%d:%04o"; "R:%s"; "a:%d:%d:%04o"; "Z:%s"] /\
   installed_mode_mask = 511%Z /\ installed_dir_default_mode = 493%Z /\ installed_file_default_mode = 420%Z /\
-  installed_join_and_trailer = [s_nl +++ s_nl; s_nl].
+  installed_join_and_trailer = [s_nl +++ s_nl; s_nl] /\
+  installed_dir_trim_fn = "strings.TrimRight".
 Proof. vm_compute. repeat split. Qed.
+(* since fix 8e9dafb the F: line carries the name without ANY trailing slash *)
+Lemma dir_trim_all s : dir_trim s = trim_right_char ch_slash s.
+Proof. reflexivity. Qed.
+Lemma dir_trim_idem s : dir_trim (dir_trim s) = dir_trim s.
+Proof. rewrite !dir_trim_all. apply trim_right_idem. Qed.
 
 Lemma join_nl_unlines ls : ls <> [] -> join s_nl ls +++ s_nl +++ s_nl = unlines (ls ++ [""]).
 Proof.
@@ -204,7 +210,7 @@ Qed.
 Transparent fmt_z fmt_o4.
 
 Definition file_head (h : hdr) : list string :=
-  if h_isdir h then ("F:" +++ trim_suffix_char ch_slash (h_name h)) :: perm_items "M:" installed_dir_default_mode h
+  if h_isdir h then ("F:" +++ dir_trim (h_name h)) :: perm_items "M:" installed_dir_default_mode h
   else ("R:" +++ path_base (h_name h)) :: perm_items "a:" installed_file_default_mode h.
 Definition zline_ok (z : list string) : Prop := z = [] \/ exists x, z = ["Z:" +++ x].
 
@@ -274,7 +280,7 @@ Proof. destruct o as [[k d]|]; reflexivity. Qed.
 
 (* the record the reader builds for one written entry, [ld] being the name on the last F: line *)
 Definition rec_of (ld : option string) (h : hdr) : hdr :=
-  mkHdr (if h_isdir h then trim_suffix_char ch_slash (h_name h)
+  mkHdr (if h_isdir h then dir_trim (h_name h)
          else match ld with Some d => sanitize_archive_path d (path_base (h_name h)) | None => path_base (h_name h) end)
         (h_isdir h) (perm_of_mode h) (h_uid h) (h_gid h) "".
 Definition id_ok (h : hdr) : Prop := int64 (h_uid h) /\ int64 (h_gid h).
@@ -294,15 +300,15 @@ Lemma read_head h st rest acc : id_ok h ->
   inst_lines dec (file_head h ++ rest) st acc =
   inst_lines dec rest
     (mkIst (i_pkg st) (rec_of (ldname (i_ldir st)) h :: i_files st)
-       (if h_isdir h then Some (O, trim_suffix_char ch_slash (h_name h)) else bump (i_ldir st))
+       (if h_isdir h then Some (O, dir_trim (h_name h)) else bump (i_ldir st))
        (if h_isdir h then None else Some O)) acc.
 Proof.
   intro Hid. unfold file_head, rec_of. destruct (h_isdir h).
   - cbn [app]. rewrite inst_lines_cons by reflexivity. rewrite fstep_F. cbn [rbind].
     unfold perm_items.
-    rewrite (ist_opt _ _ (fun s => mkIst (i_pkg s) (mkHdr (trim_suffix_char ch_slash (h_name h)) true (perm_of_mode h) (h_uid h) (h_gid h) "" :: i_files st) (i_ldir s) (i_lfile s)));
+    rewrite (ist_opt _ _ (fun s => mkIst (i_pkg s) (mkHdr (dir_trim (h_name h)) true (perm_of_mode h) (h_uid h) (h_gid h) "" :: i_files st) (i_ldir s) (i_lfile s)));
       [reflexivity|reflexivity| |].
-    + intros _. rewrite (fstep_M (perm_text h) _ O (trim_suffix_char ch_slash (h_name h)) (h_uid h) (h_gid h) (perm_of_mode h)); [reflexivity|reflexivity|apply perm_text_parse, Hid].
+    + intros _. rewrite (fstep_M (perm_text h) _ O (dir_trim (h_name h)) (h_uid h) (h_gid h) (perm_of_mode h)); [reflexivity|reflexivity|apply perm_text_parse, Hid].
     + intro E. apply negb_false_iff, perm_default_true in E. destruct E as (E1 & E2 & E3). cbn [i_pkg i_ldir i_lfile]. rewrite E1, E2, E3. reflexivity.
   - cbn [app]. rewrite inst_lines_cons by reflexivity. rewrite fstep_R. cbn [rbind].
     unfold perm_items.
@@ -324,7 +330,7 @@ Qed.
 Fixpoint recs (ld : option string) (l : list hdr) : list hdr :=
   match l with
   | [] => []
-  | h :: l' => rec_of ld h :: recs (if h_isdir h then Some (trim_suffix_char ch_slash (h_name h)) else ld) l'
+  | h :: l' => rec_of ld h :: recs (if h_isdir h then Some (dir_trim (h_name h)) else ld) l'
   end.
 
 Lemma read_files sorted : forall st ls rest acc, files_lines enc hexdec sorted = Ok ls -> Forall id_ok sorted ->
@@ -371,7 +377,7 @@ End Installed.
 (* ---- with sortTarHeaders in front: AddInstalledPackage then ParseInstalled ------------------------ *)
 (* the record the reader returns for an entry that is governed by its directory *)
 Definition rec_clean (h : hdr) : hdr :=
-  mkHdr (if h_isdir h then trim_suffix_char ch_slash (h_name h) else clean (h_name h))
+  mkHdr (if h_isdir h then dir_trim (h_name h) else clean (h_name h))
         (h_isdir h) (perm_of_mode h) (h_uid h) (h_gid h) "".
 Lemma recs_governed l : forall ld, governed ld l = true -> recs ld l = map rec_clean l.
 Proof.
@@ -427,8 +433,7 @@ Proof.
   assert (C : forall x, In x sorted -> clean (h_name (rec_clean x)) = ckey x).
   { intros x Ix. assert (Ix' : In x files) by (eapply Permutation_in; [exact Ps|exact Ix]).
     unfold rec_clean, ckey. cbn [h_name]. destruct (h_isdir x); [|apply clean_idem].
-    apply clean_trim_slash. intro E.
-    apply (reach_not_root files (ckey x) (envelope_reach files Henv x Ix')). unfold ckey. rewrite E. reflexivity. }
+    apply clean_dir_trim. exact (reach_not_root files (ckey x) (envelope_reach files Henv x Ix')). }
   assert (N : NoDup (map ckey sorted)).
   { eapply Permutation_NoDup; [apply Permutation_map; symmetry; exact Ps|exact (se_nodup files Henv)]. }
   split.
